@@ -26,6 +26,9 @@ PROP = {
         "GunYu.Props.C13.foreign_emitted_standalone",
         "GunYu.Props.C13.exactly_once_and_quiesce",
         "GunYu.Props.C13.default_filter_ok",
+        "GunYu.Props.C13.emitted_content",
+        "GunYu.Props.C13.drain_bound",
+        "GunYu.Props.C13.drain_reaches",
     ],
     "gens": ["c18", "c10"],
     "expected_facts": {
@@ -57,11 +60,23 @@ PROP = {
     "assumptions": ["default output filter (NoRouteCmds + the two reserved prefixes): the property's quantifier does not range over user filters; a prefix "
                     "whitelist or a slot filter that rejects marker/record keys would break recognition (observation, not a finding)",
                     "client commands the world theorem ranges over (ClientOK): forwardable name (not MULTI/EXEC/SELECT/PING/PUBLISH, not on the command "
-                    "blacklist: FLUSHALL etc. are withheld by design, C10) and no ARGUMENT under a reserved prefix; the block-level theorem "
-                    "foreign_never_suppressed needs this only for keys and the first argument",
+                    "blacklist) and no ARGUMENT under a reserved prefix; the block-level theorem foreign_never_suppressed needs this only for keys and the first argument",
+                    "FLUSHALL / FLUSHDB / SWAPDB (and the other NoRouteCmds) are withheld by the tool's command filter in EVERY replay mode before the bisync logic sees them "
+                    "(FilterCmd in the parser; C10 proves the filter passes exactly the configured set with NoRouteCmds always inserted): they carry no key or value, the "
+                    "property's quantifier is over writes with keys and values, and the suppression mechanisms C13 is about (marker test, namespace test) never drop them; a "
+                    "FLUSHALL at one site is therefore not mirrored — a documented limitation of the tool, not counted as a C13 violation. PUBLISH is not a write; only the "
+                    "sentinel hello is dropped, any other PUBLISH stops the replay with the builder's 'not routable' error (allowed by the property)",
+                    "link step = the parser reads one whole block and the unit is committed before the next is read; the real loops pipeline and (parallel mode) reorder "
+                    "across lanes — tied by the closed-loop histories running the real loops, not by the model",
                     "command names are ASCII (Go's Unicode case folding outside the model)",
                     "parser, commit order, predicates tied by correspondence; key constructors, infix literals, TTL regenerated; predicate bodies compared with expectation"],
-    "partial": ["exactly_once_and_quiesce assumes per bookkeeping event that the request propagates as itself or not at all (BookClean: its keys carry no "
+    "partial": ["KNOWN FINDING D31 (known_findings.d/C13.json): incremental bisync replay commits every unit in the connection's database (0) whatever database "
+                "it was written in; model and theorems have one keyspace per site, i.e. they hold per database only where the client writes are in database 0",
+                "the world theorems range over client commands with NO argument under a reserved prefix (ClientOK), i.e. a value equal to a control KEY is excluded there "
+                "(marker JSON values are admitted); the block-level theorem foreign_never_suppressed covers such values (hypothesis on keys + first argument only)",
+                "bookkeeping_skipped covers stand-alone requests (how the code issues every one of them: pinned by the bookkeeping-inside-multi monitor); a MULTI block of "
+                "redis-gunyu-bisync: keys without a marker would NOT be skipped (model event toolRaw reproduces the echo)",
+                "exactly_once_and_quiesce assumes per bookkeeping event that the request propagates as itself or not at all (BookClean: its keys carry no "
                 "TTL — the tool sets none on non-marker keys and clients stay out of the namespace); that store invariant is not derived",
                 "foreign_never_suppressed_stmt (hypothesis on keys only) is kept as a def: the code's namespace test looks at the first argument of every "
                 "command, so a key-less command whose first argument carries a reserved prefix (PUBLISH redis-gunyu-bisync:…) is skipped; the proved "
